@@ -1233,7 +1233,7 @@ def run_pair(ck, P, n_types, n_values, label_filter=None):
     base = P.case_base()
     ck.case(('pair', json.dumps(P.script, sort_keys=True, default=repr)), nontrivial=True)
     # hypotheses of the theorems on real data: both environments well formed, the edits inside `compatEnv`
-    for name in ('envWF_A', 'envWF_B', 'envWFU_A', 'envWFU_B', 'rhoWF', 'compatEnv'):
+    for name in ('envWF_A', 'envWF_B', 'envWFX_A', 'envWFU_A', 'envWFU_B', 'fieldFlagsWF_A', 'rhoWF', 'compatEnv'):
         if rep.get(name):
             ck.agree('compat.hyp')
         else:
